@@ -2060,6 +2060,9 @@ impl Node {
         prev_outs: &[TxOut],
         uniclosekeys: Vec<Option<(SecretKey, Vec<Vec<u8>>)>>,
     ) -> Result<Vec<Vec<Vec<u8>>>, Status> {
+        // The tracker may be updated for multiple channels.
+        // Lock order: tracker -> channels -> channel (as in setup_channel and get_heartbeat).
+        let mut tracker = self.get_tracker();
         let channels_lock = self.get_channels();
 
         // Funding transactions cannot be associated with just a single channel;
@@ -2236,9 +2239,6 @@ impl Node {
             }
         }
 
-        // The tracker may be updated for multiple channels
-        let mut tracker = self.get_tracker();
-
         // This locks channels in a random order, so we have to keep a global
         // lock to ensure no deadlock.  We grab the self.channels mutex above
         // for this purpose.
@@ -2265,6 +2265,10 @@ impl Node {
         self.persister
             .update_tracker(&self.get_id(), &tracker)
             .map_err(|_| internal_error("tracker persist failed"))?;
+
+        // the node state is taken with no other lock held
+        drop(tracker);
+        drop(channels_lock);
 
         // check_onchain_tx counted the fee against the fee velocity control - persist,
         // so that a restart does not forget it
